@@ -101,6 +101,7 @@ impl Oracle {
                 }
                 "ok".into()
             }
+            ("C11", "pt") => self.c11_pt(&toks, line),
             ("C13", "derived") => self.c13(line),
             ("C16", "sps") | ("C16", "pps") | ("C16", "slice") => self.c16(&toks, line),
             ("C09", "avcc") => self.c09(toks.get(1).copied().unwrap_or(""), line),
@@ -378,7 +379,67 @@ impl Oracle {
         // A.3: the level byte is the level, except that 11 with constraint_set3_flag means Level 1b
         let level = format!("{}{}", d[3], if d[3] == 11 && d[2] & 0x10 != 0 { "b" } else { "" });
         let want = format!("Ok v={} n={} prof={} compat={} level={} lsm1={} sps={} pps={} ", d[0], nsps, d[1], d[2], level, d[4] & 3, render(&lists[0], 7), render(&lists[1], 8));
-        if obs.starts_with(&want) { "ok".into() } else { format!("FAIL accessors / iterators gave [{}] expected [{}]", &obs[..obs.len().min(300)], &want[..want.len().min(300)]) }
+        if !obs.starts_with(&want) { return format!("FAIL accessors / iterators gave [{}] expected [{}]", &obs[..obs.len().min(300)], &want[..want.len().min(300)]); }
+        // create_context = every entry parsed on its own, in order, from its RBSP (un-escaped by the reference routine of this
+        // harness and read from one contiguous buffer); the first failure decides the error class
+        let mut ctx = h264_reader::Context::new(); let mut err: Option<&str> = None;
+        'ctx: for which in 0..2 {
+            for n in &lists[which] {
+                if n.is_empty() || n[0] & 0x80 != 0 || n[0] & 31 != [7u8, 8][which] { err = Some("ParamSet"); break 'ctx; }
+                let (rbsp, valid) = unescape(&n[1..]);
+                if which == 0 {
+                    match h264_reader::nal::sps::SeqParameterSet::from_bits(h264_reader::rbsp::BitReader::new(&rbsp[..])) { Ok(s) if valid => ctx.put_seq_param_set(s), _ => { err = Some("Sps"); break 'ctx; } }
+                } else {
+                    match h264_reader::nal::pps::PicParameterSet::from_bits(&ctx, h264_reader::rbsp::BitReader::new(&rbsp[..])) { Ok(p) if valid => ctx.put_pic_param_set(p), _ => { err = Some("Pps"); break 'ctx; } }
+                }
+            }
+        }
+        let want_ctx = match err { Some(k) => format!("ctx=Err({})", k), None => format!("ctx=Ok(sps=[{}] pps=[{}])", ctx.sps().map(|s| format!("{:?}", s)).collect::<Vec<_>>().join(";"), ctx.pps().map(|p| format!("{:?}", p)).collect::<Vec<_>>().join(";")) };
+        if obs.ends_with(&want_ctx) { "ok".into() } else { let got = obs.rfind("ctx=").map(|i| &obs[i..]).unwrap_or(""); format!("FAIL create_context gave [{}] but parsing each parameter set on its own gives [{}]", &got[..got.len().min(300)], &want_ctx[..want_ctx.len().min(300)]) }
+    }
+
+    /// pic_timing (D.1.2 / D.2.2) decoded here from the payload bits with the widths of the SPS's HRD (NAL HRD first, then
+    /// VCL): the delays and every time_offset (two's complement of time_offset_length bits) the library reports must be these
+    fn c11_pt(&mut self, t: &[&str], line: &str) -> String {
+        let obs = self.run.run_line(line);
+        let spsb = unhex(t[1]); let payload = unhex(t.get(2).copied().unwrap_or(""));
+        let sps = match h264_reader::nal::sps::SeqParameterSet::from_bits(h264_reader::rbsp::BitReader::new(&spsb[..])) { Ok(s) => s, Err(_) => return "ok".into() };
+        let mut bits: Vec<bool> = vec![]; for b in &payload { for i in (0..8).rev() { bits.push((b >> i) & 1 == 1); } }
+        let mut pos = 0usize;
+        let mut rd = |n: u32, pos: &mut usize| -> Option<u64> { if *pos + n as usize > bits.len() { return None; } let mut v = 0u64; for _ in 0..n { v = (v << 1) | bits[*pos] as u64; *pos += 1; } Some(v) };
+        let vui = sps.vui_parameters.as_ref();
+        let hrd = vui.and_then(|v| v.nal_hrd_parameters.as_ref().or(v.vcl_hrd_parameters.as_ref()));
+        let mut want: Vec<String> = vec![];
+        let decoded: Option<()> = (|| {
+            match hrd { Some(h) => { let a = rd(h.cpb_removal_delay_length_minus1 as u32 + 1, &mut pos)?; let b = rd(h.dpb_output_delay_length_minus1 as u32 + 1, &mut pos)?;
+                    want.push(format!("delays: Some(Delays {{ cpb_removal_delay: {}, dpb_output_delay: {} }})", a, b)); }
+                None => want.push("delays: None".into()) }
+            if vui.map(|v| v.pic_struct_present_flag).unwrap_or(false) {
+                let ps = rd(4, &mut pos)?;
+                let n = match ps { 0 | 1 | 2 => 1, 3 | 4 | 7 => 2, 5 | 6 | 8 => 3, _ => 0 };
+                let tol = hrd.map(|h| h.time_offset_length as u32).unwrap_or(24);
+                for _ in 0..n {
+                    if rd(1, &mut pos)? == 1 {
+                        rd(2, &mut pos)?; rd(1, &mut pos)?; rd(5, &mut pos)?; let full = rd(1, &mut pos)?; rd(1, &mut pos)?; rd(1, &mut pos)?; let nf = rd(8, &mut pos)?;
+                        want.push(format!("n_frames: {},", nf));
+                        if full == 1 { rd(6, &mut pos)?; rd(6, &mut pos)?; rd(5, &mut pos)?; }
+                        else if rd(1, &mut pos)? == 1 { rd(6, &mut pos)?; if rd(1, &mut pos)? == 1 { rd(6, &mut pos)?; if rd(1, &mut pos)? == 1 { rd(5, &mut pos)?; } } }
+                        if tol > 0 { let raw = rd(tol, &mut pos)? as i64; let v = if raw >= 1i64 << (tol - 1) { raw - (1i64 << tol) } else { raw }; want.push(format!("time_offset: Some({})", v)); }
+                        else { want.push("time_offset: None".into()); }
+                    }
+                }
+            } else { want.push("pic_struct: None".into()); }
+            Some(())
+        })();
+        // the payload must end here, or with a 1 bit followed by zero bits (bit_equal_to_one / bit_equal_to_zero of sei_payload)
+        let tail_ok = pos == bits.len() || (bits[pos] && bits[pos + 1..].iter().all(|b| !*b) && bits.len() - pos <= 8 && pos % 8 != 0) ;
+        if decoded.is_some() {
+            if !obs.starts_with("Ok(") { return if tail_ok { format!("FAIL a well-formed pic_timing was refused ({}); fields: {}", obs, want.join(" ")) } else { "ok".into() }; }
+            // accepted (the library also tolerates a stop bit after a byte-aligned payload): the fields are these bits
+            let mut at = 0usize;
+            for w in &want { match obs[at..].find(w.as_str()) { Some(i) => at += i + w.len(), None => return format!("FAIL pic_timing: expected [{}] (in this order) but the library returned {}", want.join(" | "), &obs[..obs.len().min(400)]) } }
+        }
+        "ok".into()
     }
 
     /// end to end: the NALs the handler is shown are the reference segmentation of the stream (each non-empty unit once,
